@@ -22,7 +22,7 @@
 #define MAXQ     64          /* model queue length cap */
 
 enum { OP_NONE = 0, OP_HOLD, OP_YIELD, OP_WAITP, OP_WAITE, OP_ACQ, OP_PRE, OP_PACQ, OP_PPRE,
-       OP_BPUT, OP_BGET, OP_QPUT, OP_QGET, OP_KPUT, OP_KGET, OP_CWAIT, OP_NOPS };
+       OP_BPUT, OP_BGET, OP_QPUT, OP_QGET, OP_KPUT, OP_KGET, OP_CWAIT, OP_WAITT, OP_NOPS };
 extern const char *const opname[OP_NOPS];
 
 /* guard classes */
@@ -62,6 +62,7 @@ typedef struct proc {
     uint64_t bufvar; uint64_t buf_req; uint64_t buf_booked;   /* C11: harness-owned amount variable */
     void *objloc;                /* C12: get destination */
     uint64_t kput_handle;
+    uint64_t waitt_handle;       /* OP_WAITT: the awaited event is a timer of process obj */
     bool cond_true_seen;         /* C13: a true evaluation since CALL at this instant */
     bool cond_seen_false;        /* C13: the predicate has been false at some point since CALL */
     double cond_true_time;
